@@ -138,6 +138,65 @@ def run(rep, tier, driver):
             rep.violation("history", {"history": [c]}, {"logger_disabled": True}, {"logger_disabled": False}, key="logger:" + k[:300])
         if not (c["fn"] == "convert" and c.get("sink") == "stdout") and o["stdout"] != "":
             rep.violation("history", {"history": [c]}, {"stdout": o["stdout"][:300]}, {"stdout": ""}, key="stdout:" + k[:300])
+    # tie of the Lean World model of convert / convert_generator (C11_logger_restored, C11_stdout_clean, C11_files_untouched, ...) to
+    # converter.py: for every distinct call, the model's logger switch, stdout lines and file lines against what was observed
+    if driver is not None:
+        model_world(rep, driver, distinct, alone)
+
+
+def model_world(rep, driver, distinct, alone):
+    def enc(x):
+        return {"s": x} if isinstance(x, str) else {"o": 1}
+    n = bad = 0
+    for k, c in distinct.items():
+        o = alone[k]
+        if c["fn"] not in ("convert", "convert_generator") or c.get("missing_file") or c.get("take") is not None or o.get("exc"):
+            continue
+        # per-glycan outcomes as observed (the conv parameter of the model): from the returned pairs, or from the listing lines
+        inputs = ([c["glycan"]] if "glycan" in c and not (isinstance(c["glycan"], dict) and "none" in c["glycan"]) else []) + \
+            list(c.get("glycan_list", [])) + list(c.get("generator", []))
+        conv = {}
+        sink = c.get("sink", "return") if c["fn"] == "convert" else "return"
+        if sink == "return":
+            for a, b in (o["result"] or []):
+                if isinstance(a, str):
+                    conv[a] = b
+        else:
+            text = o["stdout"] if sink == "stdout" else (o.get("file") or "")
+            lines = text.split("\n")[:-1] if text.endswith("\n") else text.split("\n")
+            strs = [x for x in inputs]
+            if len(lines) != len(strs):
+                continue            # judged by the Spec part above / C12
+            for x, l in zip(strs, lines):
+                if isinstance(x, str) and l.startswith(x + ","):
+                    conv[x] = l[len(x) + 1:]
+        conv = {a: b for a, b in conv.items() if b != ""}
+        req = {"op": "convert", "gen_fn": c["fn"] == "convert_generator",
+               "single": [enc(c["glycan"])] if ("glycan" in c and not (isinstance(c["glycan"], dict) and "none" in c["glycan"])) else [],
+               "list": [enc(x) for x in c["glycan_list"]] if "glycan_list" in c else None,
+               "file": None, "gen": [enc(x) for x in c["generator"]] if "generator" in c else None,
+               "conv": conv, "verbose_none": bool(c.get("verbose_none")), "sink": sink, "logger_disabled": False}
+        a = driver.ask(req)
+        n += 1
+        rep.count("world-model-compared")
+        want_stdout = o["stdout"].split("\n")[:-1] if o["stdout"].endswith("\n") else ([] if o["stdout"] == "" else o["stdout"].split("\n"))
+        ftext = o.get("file")
+        want_file = None if ftext is None else (ftext.split("\n")[:-1] if ftext.endswith("\n") else ftext.split("\n"))
+
+        def norm(lines):
+            # non-string inputs are printed with their Python repr by the code; the model writes a placeholder
+            return None if lines is None else [l if not l.startswith("<obj") else "<obj>" for l in lines]
+        objs = any(not isinstance(x, str) for x in inputs)
+        ok = a.get("logger_after") == o["logger_disabled"]
+        if not objs:
+            ok = ok and norm(a.get("stdout")) == want_stdout and (sink != "file" or norm(a.get("file")) == want_file)
+        else:
+            ok = ok and len(a.get("stdout") or []) == len(want_stdout)
+        if not ok:
+            bad += 1
+            if bad <= 3:
+                rep.broken.append("convert world model: %r vs code stdout %r file %r logger %r on %r" % (a, want_stdout, want_file, o["logger_disabled"], c))
+    rep.extra["world_model"] = {"calls_compared": n, "disagree": bad}
 
 
 def replay(body):
